@@ -284,8 +284,8 @@ func c05Check(r *Result, m *Model, c *c05Case, res *runResult, prefix string) {
 		}
 		if !jsonEq(got, want) {
 			r.finding(Finding{Kind: "monitor", Clause: "C05.events", Features: map[string]any{"action": name, "diff": diffKind(got, want)},
-				Text:  "per-action event sequence (durable writes with attempt counts, plugin calls) differs from Model/Attempts",
-				Case:  c, Observed: got, Model: want})
+				Text: "per-action event sequence (durable writes with attempt counts, plugin calls) differs from Model/Attempts",
+				Case: c, Observed: got, Model: want})
 		}
 		fa := findAction(res.Final, obj)
 		if fa == nil {
